@@ -37,7 +37,9 @@ type StdinSpec struct {
 // ProcSpec is everything that distinguishes one simulated process.
 type ProcSpec struct {
 	Stdin     StdinSpec
-	SinkLimit int // bytes stdout accepts before failing; <0 = unlimited
+	// FifoChunks is the read schedule of named pipes opened by path.
+	FifoChunks []int
+	SinkLimit  int // bytes stdout accepts before failing; <0 = unlimited
 	Faults    []Fault
 	PowerLoss *PowerLoss
 }
@@ -88,13 +90,17 @@ type Proc struct {
 	Trace   []OpRec
 	Fired   []string
 	pl      *PowerLoss
+	// named pipes: how much of each has been delivered to this process, and
+	// the read schedule
+	fifoPos    map[string]*int
+	fifoChunks []int
 }
 
 // StartProc makes a fresh process current: new fd table, new standard
 // streams. The caller resets gts's process-global state.
 func (w *World) StartProc(spec ProcSpec) *Proc {
 	w.procSeq++
-	p := &Proc{ID: w.procSeq, Faults: spec.Faults, fds: map[int]*File{}, nextFd: 3, pl: spec.PowerLoss}
+	p := &Proc{ID: w.procSeq, Faults: spec.Faults, fds: map[int]*File{}, nextFd: 3, pl: spec.PowerLoss, fifoPos: map[string]*int{}, fifoChunks: spec.FifoChunks}
 	if ino, ok := w.Files[clean(spec.Stdin.File)]; spec.Stdin.File != "" && ok {
 		p.Stdin = &File{w: w, name: "/dev/stdin", path: clean(spec.Stdin.File), kind: kReg, ino: ino, off: spec.Stdin.Offset, flag: 0, fd: 0}
 		ino.open++
